@@ -6,7 +6,7 @@ import ast
 from typing import Dict, List, Optional, Set, Tuple
 
 from ..model import AnchorError, Program, dotted, last_attr, norm, parent, walk_no_nested
-from ..report import Check
+from ..report import Check, guard
 from .common import calls_in, guards_of, need_locals, params_of
 
 SUBSCOPE_CALLS = {"subscope", "suppressing_subscope", "_subscope_and_maybe_supress"}
@@ -299,8 +299,8 @@ def r09_e(prog: Program, chk: Check) -> None:
 
 
 def run(prog: Program, chk: Check) -> None:
-    r09_e(prog, chk)
-    r09_a(prog, chk)
-    r09_b(prog, chk)
-    r09_c(prog, chk)
-    r09_d(prog, chk)
+    guard(chk, r09_e, prog, chk)
+    guard(chk, r09_a, prog, chk)
+    guard(chk, r09_b, prog, chk)
+    guard(chk, r09_c, prog, chk)
+    guard(chk, r09_d, prog, chk)
